@@ -115,7 +115,6 @@ package beacon
 //@   csensures[window_empty] b.isOrdered && (orderPosition.FromTime != nil || orderPosition.ToTime != nil) && endIdx < startIdx ==> (forall k in 0..len(b.treasuresByOrder): !inwin(ts(b, k), orderPosition.FromTime, orderPosition.ToTime)) && len(page) == 0
 //@   csensures[page_length] b.isOrdered && endIdx >= startIdx ==> len(page) == max(0, min(endIdx, ite(orderPosition.Limit == 0, endIdx, startIdx + orderPosition.From + orderPosition.Limit - 1)) - (startIdx + orderPosition.From) + 1)
 //@   csensures[page_elements] b.isOrdered ==> forall k in 0..len(page): page[k] == b.treasuresByOrder[startIdx + orderPosition.From + k]
-//@   csensures[page_is_a_private_copy] isnil(page) || fresh(page)
 
 // Assumed: these accessors of an index only read.
 //@ pureiface Beacon Get Is Count
